@@ -180,10 +180,20 @@ def rule_o4(repo):
         cname, mname = qual.split('.')
         f = need(repo.module(rel).classes[cname].find_method(mname), '%s not found' % qual)
         cfg = cfg_of(f.node)
+        from ..flow import flow_of
+        o4flow = flow_of(f.node)
+
+        def callees(c):
+            # `bound = self.assert_upper if .. else self.assert_lower; bound(var, a)`: a local that names a method
+            if isinstance(c.func, ast.Name) and o4flow.is_local(c.func.id):
+                v = o4flow.inline(c.func)
+                alts = [v.body, v.orelse] if isinstance(v, ast.IfExp) else [v]
+                return {a.attr for a in alts if isinstance(a, ast.Attribute)}
+            return {call_attr(c)}
 
         def has_call(n, names):
             return n.ast is not None and n.kind in ('stmt', 'test', 'return') and any(
-                isinstance(c, ast.Call) and call_attr(c) in names for c in ast.walk(n.ast))
+                isinstance(c, ast.Call) and (callees(c) & set(names)) for c in ast.walk(n.ast))
         asserts = [n for n in cfg.nodes if has_call(n, ('assert_upper', 'assert_lower')) and not isinstance(n.ast, (ast.For, ast.If, ast.Try))]
         checks = [n for n in cfg.nodes if has_call(n, ('check',)) and not isinstance(n.ast, (ast.For, ast.Try))]
         need(asserts and checks, '%s: assertion of bounds / call of check not found' % qual)
